@@ -903,7 +903,16 @@ func liveOne(ci int, cs caseSpec, idx int, data []byte, a *agg) {
 		incon = "watchdog: canary call timed out"
 	}
 	if allocd > allocBound(len(data)) {
-		site, stack := allocSiteSince()
+		// attribute: the stack that allocated most since the baseline; then, for precision, the same bytes once more
+		// on a fresh link against a fresh baseline (used if they allocate out of proportion again)
+		site, stack := allocSiteSince() // since the periodic baseline; resets the baseline
+		if inSync {
+			b0 := totalAlloc()
+			resendForSite(data)
+			if totalAlloc()-b0 > allocBound(len(data)) {
+				site, stack = allocSiteSince()
+			}
+		}
 		mk("alloc-amplification/"+site, fmt.Sprintf("handling %d hostile bytes allocated %d bytes in the node process (bound %d = 64MiB + 4096 x input)", len(data), allocd, allocBound(len(data))), map[string]any{"alloc_stack": stack})
 		a.add(class+" ALLOC OUT OF PROPORTION", true, events)
 		leaveAfterExpensive(cs.ID, a)
@@ -922,6 +931,42 @@ func liveOne(ci int, cs caseSpec, idx int, data []byte, a *agg) {
 		a.sample = map[string]any{"idx": idx, "hex": trunc(hexOf(data), 160), "outcome": class}
 	}
 	a.add(class, nontrivial, events)
+}
+
+// resendForSite delivers the bytes of an input that allocated out of proportion once more and waits until the
+// node has processed them (markers on every queue) or closed the link; used only to attribute the allocation
+func resendForSite(data []byte) {
+	if env.link != nil {
+		env.link.conn.Close()
+	}
+	l, err := dialEvil()
+	if err != nil {
+		return
+	}
+	env.link = l
+	drainMarkers()
+	l.conn.SetWriteDeadline(time.Now().Add(10 * time.Second))
+	l.conn.Write(data)
+	markerSeq++
+	want := map[string]bool{}
+	var out []byte
+	for q := 1; q <= env.queues; q++ {
+		m := fmt.Sprintf("%s%d-%d", markerPrefix, markerSeq, q)
+		want[m] = true
+		out = append(out, markerFrame(byte(q), m)...)
+	}
+	l.conn.Write(out)
+	deadline := time.After(60 * time.Second)
+	for len(want) > 0 {
+		select {
+		case m := <-ls.markers:
+			delete(want, m)
+		case <-l.closed:
+			return
+		case <-deadline:
+			return
+		}
+	}
 }
 
 func childLive() {
